@@ -232,13 +232,23 @@ variable (rec : Frame → St R → Action → St R)
 def runBody (fr : Frame) (s : St R) (acts : List Action) : St R :=
   acts.foldl (fun s a => if s.c.panicking.isSome then s else rec fr s a) s
 
-/-- `callHandlerWithContext` -/
-def callHandler (r : Reg) (ty v root obsParent d : Nat) (async : Bool) (s : St R) : St R :=
+/-- `callHandlerWithContext`, first part: OnHandlerStart, then the handler function is entered;
+returns the state and the observability span the handler runs under -/
+def enterHandler (r : Reg) (ty v root obsParent d : Nat) (async : Bool) (s : St R) : St R × Nat :=
   let hid := s.c.nextObs
   let s := if cfg.obs then { s with c := { s.c.emit (.obs d .hs hid obsParent ty async) with nextObs := hid + 1 } } else s
   let hobs := if cfg.obs then hid else obsParent
-  let s := { s with c := { s.c.emit (.enter (d + 1) r.rid ty v (if r.ctxAware then some root else none) async) with calls := s.c.calls + 1 } }
-  let s := runBody rec { depth := d + 1, root := root, obs := hobs, ctxAware := r.ctxAware } s (cfg.bodies.getD r.body [])
+  ({ s with c := { s.c.emit (.enter (d + 1) r.rid ty v (if r.ctxAware then some root else none) async) with calls := s.c.calls + 1 } }, hobs)
+
+/-- the state when the handler function returns or panics (`panicking` tells which) -/
+def bodyResult (r : Reg) (ty v root obsParent d : Nat) (async : Bool) (s : St R) : St R :=
+  let (s1, hobs) := enterHandler cfg r ty v root obsParent d async s
+  runBody rec { depth := d + 1, root := root, obs := hobs, ctxAware := r.ctxAware } s1 (cfg.bodies.getD r.body [])
+
+/-- `callHandlerWithContext`: the deferred recover (panic handler) and OnHandlerComplete -/
+def callHandler (r : Reg) (ty v root obsParent d : Nat) (async : Bool) (s : St R) : St R :=
+  let hid := s.c.nextObs
+  let s := bodyResult cfg rec r ty v root obsParent d async s
   let s := { s with c := s.c.emit (.exit (d + 1) r.rid) }
   let pv := s.c.panicking
   let s := { s with c := { s.c with panicking := none } }
